@@ -205,15 +205,26 @@ def reproduced(ctx, h, upto, pred, runs=3):
     """Verdicts that rest on real time (the reload queue runs on its own goroutine and clock) are taken from a reproduction only:
     the history is run again, alone, up to `runs` times; the failure counts when it shows again at the same batch."""
     import copy
-    for i in range(runs):
+    done = 0
+    for i in range(runs + 2):
+        if done >= runs:
+            break
         c = copy.deepcopy(h)
         c["id"] = "%s~r%d" % (h["id"], i)
         c["steps"] = c["steps"][:upto + 1]
-        out, _ = run_histories(ctx, [c], "repro-" + re.sub(r"\W", "_", c["id"]), fresh=1)
+        try:
+            out, _ = run_histories(ctx, [c], "repro-" + re.sub(r"\W", "_", c["id"]), fresh=1)
+        except Undecided as e:
+            # a run that could not be completed decides nothing: it is tried again (two spare attempts)
+            ctx.notes.append("reproduction run of %s did not complete: %s" % (c["id"], str(e)[-300:]))
+            continue
+        done += 1
         ctx.traces_validated -= 1
         last = [e for e in core.read_ndjson(out) if e["ev"] == "State" and e["step"] == upto]
         if last and pred(last[0]):
             return True
+    if done == 0:
+        raise Undecided("no reproduction run of history %s completed" % h["id"])
     return False
 
 
@@ -225,6 +236,12 @@ def report(ctx, res, events_file, hist_file, invs, extra_sig=None, confirm=True)
     for e in events:
         byid.setdefault(e["tr"], []).append(e)
     mine = [b for b in res["bad"] if b["inv"] in invs]
+    if os.environ.get("VERIF_FORCE_REPRO") and "RunningOK" in invs:
+        # self-test of the reproduction step: re-run some queue-mode histories alone
+        qs = [h for h in hs.values() if h["opt"].get("reloadinterval_ms") and any(st.get("faults") for st in h["steps"])][:int(os.environ["VERIF_FORCE_REPRO"])]
+        for h in qs:
+            reproduced(ctx, h, len(h["steps"]) - 1, lambda x: not x["runeq"], runs=1)
+        core.log("reproduction self-test: %d histories re-run alone" % len(qs))
     # first failing step of each history only: later steps inherit the damage
     firsts = {}
     for b in sorted(mine, key=lambda b: b["step"]):
